@@ -22,11 +22,9 @@ func (h *merkleDamgardHasher) Write(p []byte) (n int, err error) {
 	return
 }
 
+// Sum implements hash.Sum: it appends the current digest to b, without changing the underlying state
 func (h *merkleDamgardHasher) Sum(b []byte) []byte {
-	if _, err := h.Write(b); err != nil {
-		panic(err)
-	}
-	return h.state
+	return append(b, h.state...)
 }
 
 func (h *merkleDamgardHasher) Reset() {
